@@ -197,6 +197,39 @@ theorem sendCommand_evs (cmd : UInt8) (data : Bytes) (w : World) :
   unfold sendCommand exchange
   split <;> rfl
 
+theorem sendCommand_ok_inv {cmd : UInt8} {data r : Bytes} {w w1 : World} {e : List Ev}
+    (h : sendCommand cmd data w = ⟨.ok r, e, w1⟩) :
+    ∃ rest, w.script = .data r :: rest ∧ e = [.apdu (CLA :: cmd :: data)] ∧ w1 = { w with script := rest } := by
+  unfold sendCommand exchange at h
+  cases hs : w.script with
+  | nil => simp [hs] at h
+  | cons r0 rest =>
+    simp only [hs] at h
+    cases r0 with
+    | data b =>
+      simp only [classify] at h
+      injection h with h1 h2 h3
+      injection h1 with h1
+      subst h1
+      exact ⟨rest, rfl, h2.symm, h3.symm⟩
+    | sw x => simp only [classify] at h; split at h <;> (injection h with h1; cases h1)
+    | timeout => simp only [classify] at h; injection h with h1; cases h1
+    | writeErr => simp only [classify] at h; injection h with h1; cases h1
+    | readErr => simp only [classify] at h; injection h with h1; cases h1
+    | other => simp only [classify] at h; injection h with h1; cases h1
+
+theorem idx_ok_inv {b : Bytes} {i : Nat} {x : UInt8} {w w1 : World} {e : List Ev}
+    (h : idx b i w = ⟨.ok x, e, w1⟩) : b[i]? = some x ∧ e = [] ∧ w1 = w := by
+  unfold idx at h
+  cases hb : b[i]? with
+  | none => simp [hb, M.throw'] at h
+  | some y =>
+    simp only [hb, M.pure_apply] at h
+    injection h with h1 h2 h3
+    injection h1 with h1
+    subst h1
+    exact ⟨rfl, h2.symm, h3.symm⟩
+
 theorem idx_emits {P : Ev → Bool} (b : Bytes) (i : Nat) : M.Emits P (idx b i) := by
   unfold idx
   split
